@@ -45,7 +45,8 @@ PROBES = ["resize_during_cell_size_query", "toggle_then_get_at_unchanged_size", 
           "fixed_ratio_survives_resize", "memo_body_once", "terminal_size_cached_recomputed",
           "concurrent_first_calls", "task_waited_on_memo_lock", "auto_ratio_unsupported",
           "resize_back_to_earlier_size", "enable_queries_races_with_first_call",
-          "swap_toggle_races_with_cell_size_calls", "memoized_falsy_result"]
+          "swap_toggle_races_with_cell_size_calls", "memoized_falsy_result",
+          "cell_size_query_interrupted"]
 COMPONENTS = {
     "real": ["term_image.utils.get_cell_size / cached / terminal_size_cached / "
              "get_fg_bg_colors / get_terminal_name_version", "term_image.enable/disable_queries, "
@@ -147,6 +148,7 @@ def run_history(ch, ctx, fault):
                 (5, "resize"), (2, "pixels"), (2, "swap_on"), (2, "swap_off"), (1, "q_off"),
                 (2, "q_on"), (3, "set_ratio"), (6, "cell"), (5, "ratio"), (2, "colors"),
                 (2, "namever"), (3, "memo"), (3, "tsc"), (1, "inval_memo"), (2, "cell_race"),
+                (2, "cell_interrupted"),
             ])
             desc = op
             if op == "resize":
@@ -271,6 +273,40 @@ def run_history(ch, ctx, fault):
                 desc = "re-flow to %dx%d during get_cell_size(); next get_cell_size() -> %r" % (
                     c2, r2, got)
                 ctx.probe("resize_during_cell_size_query")
+                check_cell(got, desc)
+                note_get("cell")
+            elif op == "cell_interrupted":
+                # the computation for a new terminal size is interrupted half-way (Ctrl-C
+                # while waiting for the reply) and the application carries on: nothing half
+                # computed may be served afterwards
+                c2, r2 = ch.skewed("cols2", 1, 200), ch.skewed("rows2", 1, 60)
+                if (c2, r2) == (vt.cols, vt.rows):
+                    c2 += 1
+                if (c2, r2) not in visited:
+                    visited.append((c2, r2))
+                vt.resize(r2, c2)
+                kind = ch.pick("ikind", ("tty.select", "tty.read", "tty.write", "tty.tcsetattr"))
+                k.fault = {"kind": kind, "k": k.counts.get(kind, 0) + ch.int("ik", 1, 3),
+                           "when": "before", "exc": "KeyboardInterrupt"}
+                k.fault_done = False
+                interrupted = False
+                try:
+                    utils.get_cell_size()
+                except KeyboardInterrupt:
+                    interrupted = True
+                    ctx.probe("cell_size_query_interrupted")
+                k.fault = None
+                if tty.last_reply_at > k.now:
+                    k.advance(tty.last_reply_at - k.now)
+                tty.inq.clear()          # replies to the abandoned query are strays
+                note_invalidate()
+                cell_ambiguous[0] = None
+                if interrupted:
+                    model.cell = None
+                got = utils.get_cell_size()
+                got = got and tuple(got)
+                desc = "resize to %dx%d, get_cell_size() %s; next get_cell_size() -> %r" % (
+                    c2, r2, "interrupted by Ctrl-C" if interrupted else "completed", got)
                 check_cell(got, desc)
                 note_get("cell")
             elif op == "ratio":
